@@ -7,7 +7,7 @@ EXPLANATION = ('A disturber thread performs operations and may be stopped for go
                'reachability of its unwinding flags.')
 ASSUMPTIONS = ['2 threads, K=2 rounds (disturber prefix, observed prefix, disturber continues and stops anywhere, observed runs to completion)',
                'U=3-4 loop iterations per loop; operations documented as blocking (vyukov strong ops, seqlock slots==1, left_right::update) are not in the obligation set']
-TIMEOUT = {'quick': 300, 'thorough': 2400}
+TIMEOUT = {'quick': 900, 'thorough': 2400}
 PQ = 'C16/progress_queue.cpp'
 
 
